@@ -34,6 +34,9 @@ Init ==
        \* to treat the two orders as the same
        \/ kind = "reject" /\ sc \in [descr : Unsupported, fortran : {FALSE}, shape : {<<2>>}]
                                      \cup [descr : {"<f8", "<i4", "|u1"}, fortran : {TRUE}, shape : FortranShapes]
+       \* a header dict that names a key twice: as in the Python literal it is, the LAST value counts - the file is what that
+       \* value says, whether the data happen to fit the first value or the last
+       \/ kind = "dupkey" /\ sc \in [key : {"shape", "descr"}, fits : {"first", "last"}]
        \/ kind = "damage" /\ sc \in DamageCases
 
 Observe == ~done /\ done' = TRUE /\ UNCHANGED <<kind, sc>>
@@ -123,6 +126,18 @@ Emit ==
                     shape |-> sc.shape,
                     header |-> NumpyHeader(1, SpelledDict(sc.descr, sc.fortran, sc.shape,
                         [quote |-> "'", comma |-> ", ", colon |-> ": ", trailing |-> TRUE, order |-> <<1, 2, 3>>, tupleComma |-> FALSE]))]))
+          [] kind = "dupkey" ->
+                LET dict == IF sc.key = "shape"
+                            THEN "{'descr': '<f8', 'fortran_order': False, 'shape': (2,), 'shape': (3,), }"
+                            ELSE "{'descr': '<f4', 'fortran_order': False, 'descr': '<f8', 'shape': (2,), }"
+                    \* bytes of data: what the first / the last value of the repeated key asks for
+                    first == IF sc.key = "shape" THEN 16 ELSE 8
+                    last == IF sc.key = "shape" THEN 24 ELSE 16
+                IN  PrintT("REPLAY " \o ToJson([family |-> "npy", kind |-> "dupkey", key |-> sc.key, fits |-> sc.fits,
+                                                header |-> NumpyHeader(1, dict),
+                                                data_len |-> IF sc.fits = "first" THEN first ELSE last,
+                                                accept |-> (sc.fits = "last"),
+                                                shape |-> IF sc.key = "shape" THEN <<3>> ELSE <<2>>]))
           [] kind = "damage" ->
                 PrintT("REPLAY " \o ToJson([family |-> "npy", kind |-> "damage", file |-> DamageFile, max_ext |-> 16,
                                             fills |-> SeqOfSet(ExtFills)]))
